@@ -650,7 +650,7 @@ pub fn model_parts(ctx: &mut Ctx) {
         }
         if ok && !no_cap() {
             ctx.mark_exhaustive(format!(
-                "ev.exhaustive: all preemption lists with <= 2 preemptions (<= {max_bound} for the smallest programs: one notifier with 1..2 notifies, or two notifiers with one notify, listener blocking_wait/try_wait sequences of length <= 2) over the atomic accesses of notify/wait for {nprog} (program, event state) pairs (1..3 notifiers with 1..2 notifies of ids 1,2; listener sequences of length 1..3 over try_wait/blocking_wait, timed_wait(0) variants; semaphore capacity unbounded or 1 with both fail_when_buffer_is_full settings), both event states"
+                "ev.exhaustive: all preemption lists with <= 2 preemptions (<= {max_bound} for the smallest programs; quick: one notifier notify(1),notify(2) with the listener sequences [Block,Block] and [Try,Block]; thorough: also one notifier with one notify and every listener sequence, the other two-notify orders and two notifiers with one notify each) over the atomic accesses of notify/wait for {nprog} (program, event state) pairs (1..3 notifiers with 1..2 notifies of ids 1,2; listener sequences of length 1..3 over try_wait/blocking_wait, timed_wait(0) variants; semaphore capacity unbounded or 1 with both fail_when_buffer_is_full settings), both event states"
             ));
         }
     }
